@@ -1,8 +1,9 @@
 /-
 Model of the zone-file lexer `hickory_proto::serialize::txt::zone_lex::Lexer`
 (crates/proto/src/serialize/txt/zone_lex.rs) — `next_token`, `escape_seq`, `push_to_str`,
-as the code is after the repair of the 4 096-iteration cap (the `for i in 0..4096 { assert! … }`
-became a plain `loop { … }`).
+as the code is after two repairs: the 4 096-iteration cap is gone (the
+`for i in 0..4096 { assert! … }` became a plain `loop { … }`, commit 61a76eb) and quoted strings
+are recognised inside parentheses (`State::Quote { is_list }`, commit 055beb6).
 
 Text is a list of Unicode scalar values (`Nat`).  The character classes `char::is_whitespace`,
 `char::is_control`, `char::is_numeric` are modelled **on ASCII only**; the correspondence run
@@ -38,7 +39,7 @@ inductive St where
   | startLine | restOfLine | blank | list
   | charData (isList : Bool)
   | comment (isList : Bool)
-  | at | quote | dollar | eol | eof
+  | at | quote (isList : Bool) | dollar | eol | eof
   deriving DecidableEq, Repr, Inhabited
 
 inductive Token where
@@ -133,7 +134,7 @@ def step (c : Cfg) : Step :=
       else if x = 41 then .fail                                   -- IllegalCharacter(')')
       else if x = 36 then .cont { c with txt := rest, cd := some [], state := .dollar }
       else if x = 13 ∨ x = 10 then .cont { c with state := .eol }
-      else if x = 34 then .cont { c with txt := rest, cd := some [], state := .quote }
+      else if x = 34 then .cont { c with txt := rest, cd := some [], state := .quote false }
       else if x = 59 then .cont { c with state := .comment false }
       else if isWs x then .cont { c with txt := rest }
       else if !isControl x && !isWs x then .cont { c with cd := some [], state := .charData false }
@@ -145,11 +146,17 @@ def step (c : Cfg) : Step :=
     | x :: rest =>
       if x = 13 ∨ x = 10 then .cont { c with state := if il then .list else .eol }
       else .cont { c with txt := rest }
-  | .quote =>
+  | .quote il =>
     match c.txt with
     | [] => .fail                                                 -- UnclosedQuotedString
     | x :: rest =>
-      if x = 34 then .ret (some (.charData (c.cd.getD []))) rest .restOfLine
+      if x = 34 then
+        if il then
+          -- the closing quote of a list item: push it, back to the list
+          match c.cdv with
+          | some v => .cont { c with txt := rest, cdv := some (v ++ [c.cd.getD []]), cd := none, state := .list }
+          | none => .fail                                         -- IllegalState
+        else .ret (some (.charData (c.cd.getD []))) rest .restOfLine
       else if x = 92 then
         match escapeSeq c.txt with
         | none => .fail
@@ -183,6 +190,7 @@ def step (c : Cfg) : Step :=
     | [] => .fail                                                 -- UnclosedList
     | x :: rest =>
       if x = 59 then .cont { c with txt := rest, state := .comment true }
+      else if x = 34 then .cont { c with txt := rest, cd := some [], state := .quote true }
       else if x = 41 then
         match c.cdv with
         | some v => .ret (some (.list v)) rest .restOfLine
@@ -331,13 +339,17 @@ theorem step_decreases {c c' : Cfg} (h : step c = .cont c') : measure c' < measu
       cases il <;> simp only at h <;> repeat' split at h
       all_goals (cases h; lex_dec)
   | «at» => simp at h
-  | quote =>
+  | quote il =>
     cases txt with
     | nil => simp at h
     | cons x rest =>
       simp only at h
       split at h
-      · cases h
+      · cases il <;> simp only [Bool.false_eq_true, ↓reduceIte] at h
+        · cases h
+        · split at h
+          · cases h; lex_dec
+          · cases h
       · split at h
         · split at h
           · cases h
